@@ -107,6 +107,25 @@ type WithNilEmbedded struct{ *Embedded }
 type WithNilStringer struct{ *ValStringer }
 type WithNilStringerIface struct{ fmt.Stringer }
 
+// IntStack is a slice type whose pointer methods change its length.
+type IntStack []int
+
+func (s *IntStack) Pop() int {
+	old := *s
+	if len(old) == 0 {
+		return -1
+	}
+	*s = old[:len(old)-1]
+	return old[len(old)-1]
+}
+
+func (s *IntStack) Push(v int) int {
+	if len(*s) < 40 {
+		*s = append(*s, v+10)
+	}
+	return len(*s)
+}
+
 // Voider has a method without results.
 type Voider struct{}
 
